@@ -7,7 +7,7 @@ from .c08_c09_util import coq_eval_parts, coq_eval_sharded
 LEVEL = "proof"
 META = {
     "category": "proof",
-    "text": "Coq theorems over a state-passing model of the resolver (context counters, option gating, parameter-list and argument-list scans, load rules, assignment targets, scoping with the block table, the predeclared-name cache and lookupLexical's memoisation) against a declarative specification of the static rules, for ALL programs of the modelled syntax and ALL 2^6 option vectors: the resolver accepts a program iff no static rule is broken (all 35 rules: resolver_accepts_iff_no_rule_broken); a (rule, position) is reported iff the specification says the rule is violated there, exactly, for the 30 rules that need no name resolution beyond the parameter list itself (break/continue/return/load placement, if/for/while at top level, while, assignment targets, order and duplicates of arguments, the 255 limits, order and duplicates of parameters, bare *) and for top-level rebinding (RReassign, against the check's oracle Spec.scope_viol itself); for load rebinding exactly unless a load statement is nested in a function (itself an error); the scoping rules 'undefined name' and 'set without the Set option' are proved against a declarative scoping specification (ScopeSpec.v: every identifier use with the binding sets of its enclosing function/comprehension blocks; undefined = bound by no enclosing block, by no file-level binding of the module -- anywhere in the file, or so far under GlobalReassign --, not predeclared, not universal): every report is at such a use, every such use leads to a report of the same rule (for undefined names: of the same name; at its own position when the use is outside every block) -- lookupLexical memoises failed lookups and useToplevel caches predeclared/universal names, so repeats are reported once, which the theorems state; the check's executable oracle Spec.scope_viol names exactly these uses on regular programs (the two corners where it differs from the resolver are stated as examples); while and top-level if/for/while are rejected exactly when While resp. TopLevelControl is off and no other option influences these rules; an option that is ON never causes a rejection (all six options, including Set and GlobalReassign); duplicate parameters are reported exactly as specified for every parameter list; a rejected program performs no effect in the pipeline model; and, over a model of Call/CallInternal's stack scan: with recursion off the active function frames have pairwise distinct code identities under ALL call sequences (direct, mutual, through built-in frames, through different closures of one definition) and a re-entering call fails. Tied to /repo on every run: generated programs with one of 125 planted constructs x option vectors through the real parse/resolve/compile/run pipeline with logging built-ins; the real syntax tree is translated into the model's syntax and the model's error list compared with the resolver's (exact list, vm_compute), the specification (incl. an executable scoping oracle) with the reported errors; call graphs reaching an active function with recursion off and on.",
+    "text": "Coq theorems over a state-passing model of the resolver (context counters, option gating, parameter-list and argument-list scans, load rules, assignment targets, scoping with the block table, the predeclared-name cache and lookupLexical's memoisation) against a declarative specification of the static rules, for ALL programs of the modelled syntax and ALL 2^6 option vectors: the resolver accepts a program iff no static rule is broken (all 35 rules: resolver_accepts_iff_no_rule_broken); a (rule, position) is reported iff the specification says the rule is violated there, exactly, for the 30 rules that need no name resolution beyond the parameter list itself (break/continue/return/load placement, if/for/while at top level, while, assignment targets, order and duplicates of arguments, the 255 limits, order and duplicates of parameters, bare *) and for top-level rebinding (RReassign, against the check's oracle Spec.scope_viol itself); for load rebinding exactly unless a load statement is nested in a function (itself an error); the scoping rules 'undefined name' and 'set without the Set option' are proved against a declarative scoping specification (ScopeSpec.v: every identifier use with the binding sets of its enclosing function/comprehension blocks; undefined = bound by no enclosing block, by no file-level binding of the module -- anywhere in the file, or so far under GlobalReassign --, not predeclared, not universal): every report is at such a use, every such use leads to a report of the same rule (for undefined names: of the same name; at its own position when the use is outside every block) -- lookupLexical memoises failed lookups and useToplevel caches predeclared/universal names, so repeats are reported once, which the theorems state; the check's executable oracle Spec.scope_viol names exactly these uses on regular programs (the two corners where it differs from the resolver are stated as examples); while and top-level if/for/while are rejected exactly when While resp. TopLevelControl is off and no other option influences these rules; an option that is ON never causes a rejection (all six options, including Set and GlobalReassign); duplicate parameters are reported exactly as specified for every parameter list; a rejected program performs no effect in the pipeline model; and, over a model of Call/CallInternal's stack scan: with recursion off the active function frames have pairwise distinct code identities under ALL call sequences (direct, mutual, through built-in frames, through different closures of one definition) and a re-entering call fails. Tied to /repo on every run: generated programs with one of 229 planted constructs x option vectors through the real parse/resolve/compile/run pipeline with logging built-ins; the real syntax tree is translated into the model's syntax and the model's error list compared with the resolver's (exact list, vm_compute), the specification (incl. an executable scoping oracle) with the reported errors; call graphs reaching an active function with recursion off and on.",
     "note": "The per-node equivalence 'reported iff broken' is exact for 31 rules; for RUndefined and RSetUnsupported it holds up to the resolver's once-only reporting of repeated failed lookups (the naive per-node statement is false for the code as it is, see Properties.ex_memoised_once; a program with such a use is rejected); for RLoadReassign it is proved except at the items of a load statement nested in a function (named _partial). Spec.scope_viol is inexact in two corners the generator does not reach (a use inside a file-level tuple target after a binding in the same target, under GlobalReassign; parameter lists with a superfluous * or **): Properties.ex_oracle_corners; the theorems about it are stated for regular programs (ScopeSpec.regular). Trusted: Coq kernel + vm_compute; the harness and its translation of syntax.File into the model's syntax; rule classes are read from resolver messages by substring; the function-depth counter of the model stands for container().function != nil.",
     "technique": "Coq proof over executable model + differential correspondence on real syntax trees (vm_compute) + independent expectation oracle in the harness",
 }
@@ -221,7 +221,7 @@ def resolve_finish(ctx, summary, terms, refs, bad_model, bad_spec, bad_bind):
     return {
         "evaluations": summary["runs"], "distinct_nontrivial": summary["runs"],
         "programs": summary["programs"], "option_vectors": summary["vectors"], "plants": summary["plants"],
-        "rule": "programs from a grammar (defs with all parameter kinds, nested defs, lambdas with defaults, comprehensions with several clauses, if/for/break/continue, calls with positional/named/*/** arguments, loads) valid under every option vector; in 7 of 8 programs one construct is planted (125 kinds: every rule of the resolver, at top level / in a function / in a loop / in an if / in a nested def / in a def inside a loop, or wrapped in random expression contexts), plus 7 context-sensitive constructs (load, break, continue, return, if, for, while) x 30 branch positions (if-true, elif, final else after one or two elifs, for body, while body, nestings of these, after a compound statement; at top level and in a function) with the exact expected error list, x option vectors (quick: all-off, all-on and 4 seeded; thorough: all 64), and x all 16 combinations of the legacy flags resolve.AllowSet/AllowGlobalReassign/AllowRecursion/LoadBindsGlobally through the legacy entry point starlark.ExecFile, compared with the rules under the documented mapping of LegacyFileOptions; and as a module reached through load() via the loader of repl.MakeLoadOptions(opts) with the legacy flags set to the complement of opts (must behave as under ExecFileOptions(opts)). Eight use/bind/use-again programs (a universal, a predeclared and an undeclared name used at top level and in a function, then bound as a global once or twice, then used again) with the VALUES of the uses as a direct oracle. For the programs sent to Coq the resolver's binding decision of every identifier (syntax.Ident.Binding: local or cell, free, global, predeclared, universal, undefined) under GlobalReassign x LoadBindsGlobally is dumped and compared with the scoping oracle C09.Bindings. The misplaced positional argument of the argument-order plants ranges over 18 expression forms (literal, identifier, unary -, +, ~, not, parenthesised, binary, list, dict, call, lambda, conditional, comprehension, index, attribute, tuple, string). Each run goes through the real ExecFileOptions pipeline with logging built-ins and a logging loader.",
+        "rule": "programs from a grammar (defs with all parameter kinds, nested defs, lambdas with defaults, comprehensions with several clauses, if/for/break/continue, calls with positional/named/*/** arguments, loads) valid under every option vector; in 7 of 8 programs one construct is planted (229 kinds: every rule of the resolver, at top level / in a function / in a loop / in an if / in a nested def / in a def inside a loop, or wrapped in random expression contexts), plus 7 context-sensitive constructs (load, break, continue, return, if, for, while) x 30 branch positions (if-true, elif, final else after one or two elifs, for body, while body, nestings of these, after a compound statement; at top level and in a function) with the exact expected error list, x option vectors (quick: all-off, all-on and 4 seeded; thorough: all 64), and x all 16 combinations of the legacy flags resolve.AllowSet/AllowGlobalReassign/AllowRecursion/LoadBindsGlobally through the legacy entry point starlark.ExecFile, compared with the rules under the documented mapping of LegacyFileOptions; and as a module reached through load() via the loader of repl.MakeLoadOptions(opts) with the legacy flags set to the complement of opts (must behave as under ExecFileOptions(opts)). Eight use/bind/use-again programs (a universal, a predeclared and an undeclared name used at top level and in a function, then bound as a global once or twice, then used again) with the VALUES of the uses as a direct oracle. For the programs sent to Coq the resolver's binding decision of every identifier (syntax.Ident.Binding: local or cell, free, global, predeclared, universal, undefined) under GlobalReassign x LoadBindsGlobally is dumped and compared with the scoping oracle C09.Bindings. Every argument-list rule is also planted AFTER an argument that contains a nested call (plain, with its own named / * / ** arguments, two levels deep, inside a lambda, inside a comprehension; as the value of the preceding named argument or as a separate argument in between), and the same keyword inside and outside a nested call must be accepted. The misplaced positional argument of the argument-order plants ranges over 18 expression forms (literal, identifier, unary -, +, ~, not, parenthesised, binary, list, dict, call, lambda, conditional, comprehension, index, attribute, tuple, string). Each run goes through the real ExecFileOptions pipeline with logging built-ins and a logging loader.",
         "distribution": summary["dist"], "coq_programs": len(terms),
         "model_mismatches": len(bad_model), "spec_mismatches": len(bad_spec), "binding_mismatches": len(bad_bind),
         "expectation_mismatches": summary["problem_programs"],
